@@ -67,7 +67,7 @@ func (v *Value) UnmarshalNBT(tagType byte, r nbt.DecoderReader) error {
 			return errors.New("string length less than 0")
 		}
 
-		v.data = append(v.data[:0], make([]byte, 2+n)...)
+		v.data = append(v.data[:0], make([]byte, 2+int(n))...)
 		binary.BigEndian.PutUint16(v.data, uint16(n))
 
 		_, err = io.ReadFull(r, v.data[2:])
